@@ -675,8 +675,8 @@ theorem doc_of_current (t : Traveler) (f : String) (h : keyIsCurrent f = true) :
 theorem elemDict_gid (c : Option Elem) :
     (elemDict c).getPath? ["gid"] = some (.str ((c.map (·.gid)).getD "")) := by
   cases c with
-  | none => simp [elemDict, Path.nilDict, JV.getPath?, JV.getKey?, List.find?]
-  | some e => simp [elemDict, Path.toDict, JV.getPath?, JV.getKey?, List.find?]
+  | none => simp [elemDict, Path.nilDict, JV.getPath?, JV.member, JV.getKey?, List.find?]
+  | some e => simp [elemDict, Path.toDict, JV.getPath?, JV.member, JV.getKey?, List.find?]
 
 theorem gid_lookup_eq {g bm ty b t t'} (hf : GidFacts) (h : TSim g bm ty b t t') :
     Path.lookupDoc (t'.doc "_gid") "_gid" = Path.lookupDoc (t.doc "_gid") "_gid" := by
